@@ -3,7 +3,7 @@
 
 *)
 From Coq Require Import ZArith NArith List Bool Arith.
-From NSG Require Import Base.Prelude Model.Defender Model.Coord Proofs.CoordBase Proofs.CoordInv Proofs.CoordInvConn Proofs.CoordInvDispatch Proofs.CoordInvHandler Proofs.CoordProps Proofs.CoordDirect.
+From NSG Require Import Base.Prelude Model.Defender Model.Coord Proofs.CoordBase Proofs.CoordInv Proofs.CoordInvConn Proofs.CoordInvDispatch Proofs.CoordInvHandler Proofs.CoordProps Proofs.CoordDirect Proofs.CoordInv2 Proofs.CoordAgentStep.
 Import ListNotations.
 
 (* the handlers waiting for the end of the episode are released only by the reward task, and it does nothing unless every agent in the game has finished *)
@@ -69,6 +69,20 @@ Theorem C06_nonfinal :
         else @game_finish V W G s2 id c act v').
 Proof. exact (@game_step_eq). Qed.
 
+(* in every reachable state a handler held at the end-of-episode barrier belongs to an agent whose episode has ended, and the view it will report is exactly the stored one (final observations only are held back) *)
+Theorem C06_parked_final :
+  forall (V W G : Type) (wstep : W -> V -> G -> W * V) (wreset : W -> W) (winit : W -> role -> W * V)
+         (goal : role -> V -> bool) (detect : list G -> G -> bool) (cfg : config) 
+         (w : W) (ls : list (@label G)) (s : @state V W G) (h : @handler V G) (rel : bool) 
+         (act : G) (v' : V),
+       @execs V W G wstep wreset winit goal detect cfg (@init_state V W G w) ls = @Some (@state V W G) s ->
+       @In (@handler V G) h (@handlers V W G s) ->
+       @h_pc V G h = @PRewards V G rel act v' ->
+       exists a : @agent V G,
+         @alookup (@agent V G) (@h_addr V G h) (@agents V W G s) = @Some (@agent V G) a /\
+         @a_ended V G a = true /\ @a_view V G a = v' /\ @a_req V G a = false.
+Proof. exact (@parked_view_reachable). Qed.
+
 
 (* non-vacuity: a concrete run of the executable instance reaches a state in which a request is
    held back at a barrier (two required players, one has joined) and the model is quiescent *)
@@ -89,3 +103,4 @@ Print Assumptions C06_end.
 Print Assumptions C06_end_all.
 Print Assumptions C06_quiescent.
 Print Assumptions C06_nonfinal.
+Print Assumptions C06_parked_final.
